@@ -92,6 +92,7 @@ class Transform(AgendaWalk):
             st.facts += [xl(idx + 1) == xl(idx) + z3.If(leaf, tv.sel('num_leaves', tv.len - 1) - 1, 0),
                          xn(idx + 1) == xn(idx) + z3.If(leaf, tv.len - 1, 0)]
             st.ghost['replacement'] = (tv.sel('num_leaves', tv.len - 1), tv.len, st.heap[tr.oid].nil, st.heap[tr.oid].ns)
+            st.ghost['replacement_root'] = tv.node_at(tv.len - 1)
 
     def cast_spec(self, eng, st, o):
         ref = o.ref if isinstance(o, PyObj) else o
@@ -134,7 +135,12 @@ class Transform(AgendaWalk):
         nl, nn, nil, ns = rep
         nonleaf = v.K(idx) != K['Leaf']
         common = cx.var('common_registry_namespace')
-        return [('replacement-has-the-same-none_is_leaf', nil == cx.this_spec(cx.entry).nil),
+        out_vec = cx.st.heap[cx.st.heap[cx.var('treespec').oid].trav]
+        root = cx.st.ghost['replacement_root']
+        emitted = out_vec.node_at(out_vec.len - 1)
+        payload = [(f'emitted-node-keeps-the-{f}-of-the-replacement-root', z3.Implies(nonleaf, emitted.get(f) == root.get(f)))
+                   for f in ('kind', 'arity', 'node_data', 'node_entries', 'custom', 'original_keys')]
+        return payload + [('replacement-has-the-same-none_is_leaf', nil == cx.this_spec(cx.entry).nil),
                 ('replacement-namespace-is-empty-or-the-common-one', z3.Or(ns == EMPTY, ns == common)),
                 ('replacement-of-a-non-leaf-node-has-arity-leaves', z3.Implies(nonleaf, nl == v.A(idx))),
                 ('replacement-of-a-non-leaf-node-is-one-level', z3.Implies(nonleaf, nn == v.A(idx) + 1))]
@@ -169,7 +175,17 @@ class Transform(AgendaWalk):
                 ('pending-height', pend.len == self.F(idx) - i),
                 ('popped-leaves-are-in-subroot', asum(pend.a, pend.len) + sub.get('num_leaves') == tl),
                 ('popped-nodes-are-in-subroot', asum(pend.b, pend.len) + sub.get('num_nodes') == tn + 1),
-                ('subroot-is-the-last-emitted-node', out.len == tn + 1)]
+                ('subroot-is-the-last-emitted-node', out.len == tn + 1)] + self.payload_kept(cx, out)
+
+    def payload_kept(self, cx, out):
+        tr = cx.var('transformed')
+        tv = cx.st.heap[cx.st.heap[tr.oid].trav]
+        root = tv.node_at(tv.len - 1)
+        last = out.node_at(out.len - 1)
+        return [(f'emitted-node-keeps-the-{f}-of-the-replacement-root', last.get(f) == root.get(f))
+                for f in ('kind', 'arity', 'node_data', 'node_entries', 'custom', 'original_keys')]
+
+
 
     def raises(self, cx):
         return {'pybind11::type_error': None, 'pybind11::value_error': None, 'pybind11::error_already_set': None,
